@@ -201,7 +201,7 @@ PROPS = {
     'C08': {
         'units': ['crc', 'cw', 'open', 'bytesio', 'builder'],
         'kani': ['read_le','to_le_bytes_spec','crc_byte_step_is_bitwise','masked_spec','table16_row0','table_xor_linear','table16_succ_00','table16_succ_01','table16_succ_02','table16_succ_03','table16_succ_04','table16_succ_05','table16_succ_06','table16_succ_07','table16_succ_08','table16_succ_09','table16_succ_10','table16_succ_11','table16_succ_12','table16_succ_13','table16_succ_14'],
-        'own': {'builder': r'Builder::(into_inner|new_type|new)$', 'bytesio': r'io_write_u32_le|write_u32_le', 'open': r'verify|as_bytes|as_ref'},
+        'own': {'builder': r'Builder::(into_inner|new_type|new)$', 'bytesio': r'io_write_u32_le|write_u32_le', 'open': r'verify|as_bytes|as_ref|map_data|into_inner|as_inner|as_fst|into_fst|::from$'},
         'level_text': 'Proof: crc32c_slice16 equals the bitwise CRC-32C fold for every length and chunking (table facts assumed, see note); '
                       'into_inner writes masked_crc of everything before it as the last 4 bytes; verify() returns Ok iff the stored word '
                       'equals that value; a spec-level theorem shows a single altered byte always changes one side of that equation.',
@@ -224,7 +224,7 @@ PROPS = {
     'C10': {
         'units': ['open', 'decode'],
         'kani': ['read_le','unpack_le','common_tables','find_input_scan'],
-        'own': {'open': r'Fst::(new|verify|as_ref)|u64_to_usize|From'},  # decode: every obligation (the decoder is version-parametric)
+        'own': {'open': r'Fst::(new|verify|as_ref|map_data|into_inner|as_inner)|u64_to_usize|From|::from$|map_data'},  # decode: every obligation (the decoder is version-parametric)
         'level_text': 'Proof: Fst::new is verified generically over D: AsRef<[u8]> against per-version footer offsets written from '
                       'the format description: versions 1-3 with at least 32/36 bytes open with the footer fields at the '
                       'per-version offsets, shorter inputs give Format{size}, unsupported versions Version{expected:3, got}; '
